@@ -122,7 +122,7 @@ class SSHAllowedSigners:
     def load(self, allowed_signers: str) -> None:
         """Load allowed signers data into this object"""
 
-        for line in allowed_signers.splitlines():
+        for line in allowed_signers.split('\n'):
             line = line.strip()
 
             if not line or line.startswith('#'):
